@@ -352,6 +352,22 @@ def run(ctx):
         if not ok:
             ctx.disagree("compile verdict (arbitrary workbook): " + note, dict(workbook=wb), m, i)
 
+    # ---------------- (1b) directed: blank padding cells in the edge columns of rows that do not create a node.
+    # Model (which follows the regenerated probe padding_edges_dropped_at_read) vs implementation; the verdicts
+    # of the implementation are recorded: they say what the tool at hand does with a padded go_to row.
+    padded = W.padded_workbooks()
+    mpad = model_compile(ctx, [w for _, w in padded])
+    ctx.stats["padded_rows_impl"] = {}
+    for (label, wb), m in zip(padded, mpad):
+        i = run_impl(wb)
+        ok, note = agree(m, i)
+        ctx.count("padded_" + note.split(":")[0].replace(" ", "_")[:40])
+        ctx.stats["padded_rows_impl"][label] = "compiles" if i[0] == "ok" else W.CLASS_NAMES.get(i[1], "stopped: " + str(i[2]))
+        v.coverage["evaluations"] += 1
+        nontrivial.add(("padded", label, i[0]))
+        if not ok:
+            ctx.disagree(f"compile verdict (padded row: {label}): " + note, dict(workbook=wb), m, i)
+
     # ---------------- (2) valid workbooks and their injected variants
     n_valid = (40 if thorough else 6) * scale
     per_class = None if thorough else 6
